@@ -414,3 +414,73 @@ def g_spec(files):
                 continue
             i += 1
     return fns, spec_sites, viol
+
+
+# ----------------------------------------------------------------------------- dependency facts (C10 / C04 assumptions)
+
+def _locked_version(name):
+    lock = os.path.join(build.repo(), 'Cargo.lock')
+    try:
+        txt = open(lock).read()
+    except OSError:
+        return None
+    m = re.search(r'name = "%s"\nversion = "([^"]+)"' % re.escape(name), txt)
+    return m.group(1) if m else None
+
+
+def _registry_src(name, version):
+    import glob
+    c = glob.glob(os.path.expanduser(f'~/.cargo/registry/src/*/{name}-{version}'))
+    return c[0] if c else None
+
+
+def _first_fn_tail(path, fn_name):
+    """tokens of the tail expression (after the last `;` / `}` at depth 0) of the first fn with that name"""
+    try:
+        f = SrcFile(path, open(path).read())
+    except OSError:
+        return None
+    toks = f.toks
+    for i in range(len(toks) - 1):
+        if toks[i].text == 'fn' and toks[i + 1].text == fn_name:
+            k = i
+            while toks[k].text != '{':
+                k += 1
+            e = match_close(toks, k)
+            body = toks[k + 1:e]
+            depth = 0
+            last = 0
+            for j, t in enumerate(body):
+                if t.text in OPEN:
+                    depth += 1
+                elif t.text in OPEN.values():
+                    depth -= 1
+                    if depth == 0 and t.text == '}':
+                        last = j + 1
+                elif t.text == ';' and depth == 0:
+                    last = j + 1
+            return ' '.join(t.text for t in body[last:]), ' '.join(t.text for t in body[:last])
+    return None
+
+
+def dependency_transparency():
+    """the facts the byte-identity clause of C10 rests on, read from the vendored sources of the locked versions:
+    JSON / MessagePack serializers pass a newtype struct's value through, deserializers hand the same deserializer to
+    visit_newtype_struct. Returns a list of {crate, version, fact, verified: True|False|None}."""
+    out = []
+    for crate, ser_file, de_file in (('serde_json', 'src/ser.rs', 'src/de.rs'), ('rmp-serde', 'src/encode.rs', 'src/decode.rs')):
+        ver = _locked_version(crate)
+        src = _registry_src(crate, ver) if ver else None
+        if not src:
+            out.append({'crate': crate, 'version': ver, 'fact': 'sources not available', 'verified': None})
+            continue
+        t = _first_fn_tail(os.path.join(src, ser_file), 'serialize_newtype_struct')
+        ok = t is not None and t[0].replace(' ', '') == 'value.serialize(self)'
+        pre_ok = t is not None and (t[1] == '' or 'MSGPACK_EXT_STRUCT_NAME' in t[1])
+        out.append({'crate': crate, 'version': ver, 'fact': 'Serializer::serialize_newtype_struct(name, value) = value.serialize(self)'
+                    + (' (except for the reserved ext-struct name)' if t and t[1] else ''), 'verified': bool(ok and pre_ok)})
+        t = _first_fn_tail(os.path.join(src, de_file), 'deserialize_newtype_struct')
+        ok = t is not None and t[0].replace(' ', '') == 'visitor.visit_newtype_struct(self)'
+        out.append({'crate': crate, 'version': ver, 'fact': 'Deserializer::deserialize_newtype_struct(name, v) = v.visit_newtype_struct(self)'
+                    + (' (after raw-value / ext-struct special names)' if t and t[1] else ''), 'verified': bool(ok)})
+    return out
